@@ -163,6 +163,9 @@ func checkRowsCase(c *RowsCase) error {
 			if err := walkImage(t, tm, presB, ev.Rows[r].Before, got.Identify, fmt.Sprintf("row %d before", r)); err != nil {
 				return err
 			}
+			if !bytes.Equal(got.Identify, img) {
+				return fmt.Errorf("row %d: decoding the cells of the before image changed the image", r)
+			}
 		}
 		if hasAfter {
 			img, nulls := valuesOnly(t, presA, ev.Rows[r].After)
@@ -174,6 +177,9 @@ func checkRowsCase(c *RowsCase) error {
 			}
 			if err := walkImage(t, tm, presA, ev.Rows[r].After, got.Data, fmt.Sprintf("row %d after", r)); err != nil {
 				return err
+			}
+			if !bytes.Equal(got.Data, img) {
+				return fmt.Errorf("row %d: decoding the cells of the after image changed the image", r)
 			}
 		}
 	}
